@@ -23,9 +23,18 @@
 (***************************************************************************)
 EXTENDS Integers, Sequences, FiniteSets, TLC
 
-CONSTANTS NA, Rounds, PerRound, NotifyMode, ExitMode
+RECURSIVE SetToSortedSeq(_)
+SetToSortedSeq(S) == IF S = {} THEN <<>>
+                     ELSE LET m == CHOOSE x \in S : \A y \in S : x <= y IN <<m>> \o SetToSortedSeq(S \ {m})
+RECURSIVE Perms(_)
+Perms(S) == IF S = {} THEN {<<>>} ELSE UNION {{<<x>> \o p : p \in Perms(S \ {x})} : x \in S}
+
+CONSTANTS NA, Rounds, PerRound, NotifyMode, ExitMode,
+          TempApps   \* application threads that use the blocking API style: a fresh queue per round
+                     \* (CreateCommandQueue; Enqueue...; DrainCommandQueue), all in one shared context
 
 Apps == 1..NA
+OwnApps == Apps \ TempApps
 
 VARIABLES
   cmds,          \* [Apps -> Seq(Nat)]   pending commands of each queue
@@ -41,16 +50,19 @@ VARIABLES
   eq,            \* queue index the driver tick is working on
   eprog,         \* the current tick made progress
   pauseLock,     \* "free" | "ra" | "eng"
-  tickScheduled  \* a driver tick event is in the event queue
+  tickScheduled, \* a driver tick event is in the event queue
+  qorder         \* Seq(Apps): the queues in the order the driver scans them (creation order); the last
+                 \* entry of an application thread is its live queue, earlier ones are drained for good
 
-vars == <<cmds,issued,done,apc,round,left,sub,token,rpc,engineRunning,rerun,epc,eq,eprog,pauseLock,tickScheduled>>
+vars == <<cmds,issued,done,apc,round,left,sub,token,rpc,engineRunning,rerun,epc,eq,eprog,pauseLock,tickScheduled,qorder>>
 
 Init ==
   /\ cmds = [a \in Apps |-> <<>>] /\ issued = [a \in Apps |-> <<>>] /\ done = [a \in Apps |-> <<>>]
-  /\ apc = [a \in Apps |-> "enq"] /\ round = [a \in Apps |-> 1] /\ left = [a \in Apps |-> PerRound]
+  /\ apc = [a \in Apps |-> IF a \in TempApps THEN "create" ELSE "enq"] /\ round = [a \in Apps |-> 1] /\ left = [a \in Apps |-> PerRound]
   /\ sub = [a \in Apps |-> FALSE] /\ token = [a \in Apps |-> FALSE]
   /\ rpc = "select" /\ engineRunning = FALSE /\ rerun = FALSE
   /\ epc = "none" /\ eq = 1 /\ eprog = FALSE /\ pauseLock = "free" /\ tickScheduled = FALSE
+  /\ qorder = SetToSortedSeq(OwnApps)
 
 \* ------------------------------------------------------------------------
 \* NotifyAllSubscribers of queue q, executed by any thread.  Effect on the
@@ -70,7 +82,7 @@ AppEnq(a) ==            \* Enqueue: append under commandsMutex
      /\ cmds' = [cmds EXCEPT ![a] = Append(@, id)]
      /\ issued' = [issued EXCEPT ![a] = Append(@, id)]
   /\ apc' = [apc EXCEPT ![a] = "enqNotify"]
-  /\ UNCHANGED <<done,round,left,sub,token,rpc,engineRunning,rerun,epc,eq,eprog,pauseLock,tickScheduled>>
+  /\ UNCHANGED <<done,round,left,sub,token,rpc,engineRunning,rerun,epc,eq,eprog,pauseLock,tickScheduled,qorder>>
 
 AppEnqNotify(a) ==      \* NotifyAllSubscribers after Enqueue, then next Enqueue or DrainCommandQueue
   /\ apc[a] = "enqNotify"
@@ -78,41 +90,51 @@ AppEnqNotify(a) ==      \* NotifyAllSubscribers after Enqueue, then next Enqueue
      /\ token' = r[2]
      /\ apc' = [r[1] EXCEPT ![a] = IF left[a] > 1 THEN "enq" ELSE "subscribe"]
   /\ left' = [left EXCEPT ![a] = @ - 1]
-  /\ UNCHANGED <<cmds,issued,done,round,sub,rpc,engineRunning,rerun,epc,eq,eprog,pauseLock,tickScheduled>>
+  /\ UNCHANGED <<cmds,issued,done,round,sub,rpc,engineRunning,rerun,epc,eq,eprog,pauseLock,tickScheduled,qorder>>
 
 AppSubscribe(a) ==      \* q.Subscribe(): a fresh listener
   /\ apc[a] = "subscribe"
   /\ sub' = [sub EXCEPT ![a] = TRUE] /\ token' = [token EXCEPT ![a] = FALSE]
   /\ apc' = [apc EXCEPT ![a] = "signal"]
-  /\ UNCHANGED <<cmds,issued,done,round,left,rpc,engineRunning,rerun,epc,eq,eprog,pauseLock,tickScheduled>>
+  /\ UNCHANGED <<cmds,issued,done,round,left,rpc,engineRunning,rerun,epc,eq,eprog,pauseLock,tickScheduled,qorder>>
 
 AppSignal(a) ==         \* d.enqueueSignal <- true  (unbuffered: rendezvous with runAsync's select)
   /\ apc[a] = "signal"
   /\ IF rpc = "inselect"
      THEN /\ apc' = [apc EXCEPT ![a] = "check"] /\ rpc' = "pause"
      ELSE /\ apc' = [apc EXCEPT ![a] = "sending"] /\ rpc' = rpc
-  /\ UNCHANGED <<cmds,issued,done,round,left,sub,token,engineRunning,rerun,epc,eq,eprog,pauseLock,tickScheduled>>
+  /\ UNCHANGED <<cmds,issued,done,round,left,sub,token,engineRunning,rerun,epc,eq,eprog,pauseLock,tickScheduled,qorder>>
 
 AppCheck(a) ==          \* if q.NumCommand() == 0 { return }
   /\ apc[a] = "check"
   /\ apc' = [apc EXCEPT ![a] = IF cmds[a] = <<>> THEN "unsub" ELSE "wait"]
-  /\ UNCHANGED <<cmds,issued,done,round,left,sub,token,rpc,engineRunning,rerun,epc,eq,eprog,pauseLock,tickScheduled>>
+  /\ UNCHANGED <<cmds,issued,done,round,left,sub,token,rpc,engineRunning,rerun,epc,eq,eprog,pauseLock,tickScheduled,qorder>>
 
 AppWait(a) ==           \* listener.Wait(): take a token or park
   /\ apc[a] = "wait"
   /\ IF token[a]
      THEN /\ token' = [token EXCEPT ![a] = FALSE] /\ apc' = [apc EXCEPT ![a] = "check"]
      ELSE /\ token' = token /\ apc' = [apc EXCEPT ![a] = "parked"]
-  /\ UNCHANGED <<cmds,issued,done,round,left,sub,rpc,engineRunning,rerun,epc,eq,eprog,pauseLock,tickScheduled>>
+  /\ UNCHANGED <<cmds,issued,done,round,left,sub,rpc,engineRunning,rerun,epc,eq,eprog,pauseLock,tickScheduled,qorder>>
 
 AppUnsub(a) ==          \* return from DrainCommandQueue (deferred Unsubscribe), next round or finished
   /\ apc[a] = "unsub"
   /\ sub' = [sub EXCEPT ![a] = FALSE] /\ token' = [token EXCEPT ![a] = FALSE]
   /\ IF round[a] < Rounds
      THEN /\ round' = [round EXCEPT ![a] = @ + 1] /\ left' = [left EXCEPT ![a] = PerRound]
-          /\ apc' = [apc EXCEPT ![a] = "enq"]
+          /\ apc' = [apc EXCEPT ![a] = IF a \in TempApps THEN "create" ELSE "enq"]
      ELSE /\ round' = round /\ left' = left /\ apc' = [apc EXCEPT ![a] = "returned"]
-  /\ UNCHANGED <<cmds,issued,done,rpc,engineRunning,rerun,epc,eq,eprog,pauseLock,tickScheduled>>
+  /\ UNCHANGED <<cmds,issued,done,rpc,engineRunning,rerun,epc,eq,eprog,pauseLock,tickScheduled,qorder>>
+
+\* CreateCommandQueue in the shared context: needs the context's queue mutex, which the engine goroutine
+\* holds for the whole scan of the context inside a driver tick.
+InTickPc(p) == p \in {"scan", "deq", "deqNotify"}
+AppCreate(a) ==
+  /\ apc[a] = "create"
+  /\ IF InTickPc(epc)
+     THEN /\ apc' = [apc EXCEPT ![a] = "creating"] /\ UNCHANGED qorder      \* blocked on the mutex
+     ELSE /\ apc' = [apc EXCEPT ![a] = "enq"] /\ qorder' = Append(qorder, a)
+  /\ UNCHANGED <<cmds,issued,done,round,left,sub,token,rpc,engineRunning,rerun,epc,eq,eprog,pauseLock,tickScheduled>>
 
 \* --------------------------------------------------------------- runAsync
 Sending == {a \in Apps : apc[a] = "sending"}
@@ -122,75 +144,87 @@ RASelect ==             \* enter select; completes the rendezvous if a sender is
   /\ IF Sending = {}
      THEN rpc' = "inselect" /\ apc' = apc
      ELSE \E a \in Sending : apc' = [apc EXCEPT ![a] = "check"] /\ rpc' = "pause"
-  /\ UNCHANGED <<cmds,issued,done,round,left,sub,token,engineRunning,rerun,epc,eq,eprog,pauseLock,tickScheduled>>
+  /\ UNCHANGED <<cmds,issued,done,round,left,sub,token,engineRunning,rerun,epc,eq,eprog,pauseLock,tickScheduled,qorder>>
 
 RAPause ==              \* Engine.Pause()
   /\ rpc = "pause" /\ pauseLock = "free"
   /\ pauseLock' = "ra" /\ rpc' = "ticklater"
-  /\ UNCHANGED <<cmds,issued,done,apc,round,left,sub,token,engineRunning,rerun,epc,eq,eprog,tickScheduled>>
+  /\ UNCHANGED <<cmds,issued,done,apc,round,left,sub,token,engineRunning,rerun,epc,eq,eprog,tickScheduled,qorder>>
 
 RATickLater ==          \* d.TickLater(): schedules a tick unless one is already scheduled
   /\ rpc = "ticklater"
   /\ tickScheduled' = TRUE /\ rpc' = "continue"
-  /\ UNCHANGED <<cmds,issued,done,apc,round,left,sub,token,engineRunning,rerun,epc,eq,eprog,pauseLock>>
+  /\ UNCHANGED <<cmds,issued,done,apc,round,left,sub,token,engineRunning,rerun,epc,eq,eprog,pauseLock,qorder>>
 
 RAContinue ==           \* Engine.Continue()
   /\ rpc = "continue"
   /\ pauseLock' = "free" /\ rpc' = "flag"
-  /\ UNCHANGED <<cmds,issued,done,apc,round,left,sub,token,engineRunning,rerun,epc,eq,eprog,tickScheduled>>
+  /\ UNCHANGED <<cmds,issued,done,apc,round,left,sub,token,engineRunning,rerun,epc,eq,eprog,tickScheduled,qorder>>
 
 RAFlag ==               \* under engineRunningMutex: start an engine goroutine unless one is running
   /\ rpc = "flag"
   /\ IF engineRunning
      THEN /\ rerun' = (IF ExitMode = "recheck" THEN TRUE ELSE rerun)
-          /\ UNCHANGED <<engineRunning, epc>>
+          /\ UNCHANGED <<engineRunning, epc,qorder>>
      ELSE /\ epc = "none"        \* the previous engine goroutine has ended (clear and exit are one step)
           /\ engineRunning' = TRUE /\ epc' = "acquire" /\ rerun' = rerun
   /\ rpc' = "select"
-  /\ UNCHANGED <<cmds,issued,done,apc,round,left,sub,token,eq,eprog,pauseLock,tickScheduled>>
+  /\ UNCHANGED <<cmds,issued,done,apc,round,left,sub,token,eq,eprog,pauseLock,tickScheduled,qorder>>
 
 \* ----------------------------------------------------------------- engine
 EAcquire ==             \* engineMutex.Lock(); Engine.Run() up to the top of its loop
   /\ epc = "acquire" /\ epc' = "loop"
-  /\ UNCHANGED <<cmds,issued,done,apc,round,left,sub,token,rpc,engineRunning,rerun,eq,eprog,pauseLock,tickScheduled>>
+  /\ UNCHANGED <<cmds,issued,done,apc,round,left,sub,token,rpc,engineRunning,rerun,eq,eprog,pauseLock,tickScheduled,qorder>>
 
 ELoop ==                \* noMoreEvent() ?  Run() returns : go on to take pauseLock
   /\ epc = "loop"
   /\ epc' = IF tickScheduled THEN "lockpause" ELSE "clear"
-  /\ UNCHANGED <<cmds,issued,done,apc,round,left,sub,token,rpc,engineRunning,rerun,eq,eprog,pauseLock,tickScheduled>>
+  /\ UNCHANGED <<cmds,issued,done,apc,round,left,sub,token,rpc,engineRunning,rerun,eq,eprog,pauseLock,tickScheduled,qorder>>
 
 \* End of a driver tick: reschedule if progress was made, release pauseLock, back to the loop top.
-TickEnd(prog) == /\ tickScheduled' = prog /\ pauseLock' = "free" /\ epc' = "loop" /\ eq' = 1 /\ eprog' = FALSE
+Creating == {a \in Apps : apc[a] = "creating"}
+Live(i) == \A j \in (i+1)..Len(qorder) : qorder[j] # qorder[i]     \* entry i is its owner's newest queue
+\* the part of TickEnd that does not touch apc / qorder
+TickEndCore(prog) == /\ tickScheduled' = prog /\ pauseLock' = "free" /\ epc' = "loop" /\ eq' = 1 /\ eprog' = FALSE
+\* queue creations that were blocked on the context's queue mutex complete when the scan ends, in any order
+ReleaseCreators(apc0) ==
+  \E p \in Perms(Creating) :
+     /\ qorder' = qorder \o p
+     /\ apc' = [a \in Apps |-> IF a \in Creating THEN "enq" ELSE apc0[a]]
 
 ELockPause ==           \* pauseLock.Lock(); pop the tick event; Driver.Tick up to the first queue scan
   /\ epc = "lockpause" /\ pauseLock = "free"
-  /\ IF NA >= 1
+  /\ IF Len(qorder) >= 1
      THEN /\ pauseLock' = "eng" /\ tickScheduled' = FALSE /\ eq' = 1 /\ eprog' = FALSE /\ epc' = "scan"
-     ELSE TickEnd(FALSE)
-  /\ UNCHANGED <<cmds,issued,done,apc,round,left,sub,token,rpc,engineRunning,rerun>>
+     ELSE TickEndCore(FALSE)          \* no queue yet: nothing is locked, nobody can be blocked on creation
+  /\ UNCHANGED <<cmds,issued,done,apc,round,left,sub,token,rpc,engineRunning,rerun,qorder>>
 
-EScan ==                \* processNewCommandFromCmdQueue(q): empty -> next queue; else Noop -> Dequeue
+EScan ==                \* processNewCommandFromCmdQueue(q): empty (or drained for good) -> next queue; else Noop -> Dequeue
   /\ epc = "scan"
-  /\ IF cmds[eq] # <<>>
-     THEN /\ epc' = "deq" /\ UNCHANGED <<eq, eprog, pauseLock, tickScheduled>>
-     ELSE IF eq < NA
-          THEN /\ eq' = eq + 1 /\ UNCHANGED <<epc, eprog, pauseLock, tickScheduled>>
-          ELSE TickEnd(eprog)
-  /\ UNCHANGED <<cmds,issued,done,apc,round,left,sub,token,rpc,engineRunning,rerun>>
+  /\ LET a == qorder[eq] IN
+     IF Live(eq) /\ cmds[a] # <<>>
+     THEN /\ epc' = "deq" /\ UNCHANGED <<eq, eprog, pauseLock, tickScheduled, apc, qorder>>
+     ELSE IF eq < Len(qorder)
+          THEN /\ eq' = eq + 1 /\ UNCHANGED <<epc, eprog, pauseLock, tickScheduled, apc, qorder>>
+          ELSE TickEndCore(eprog) /\ ReleaseCreators(apc)
+  /\ UNCHANGED <<cmds,issued,done,round,left,sub,token,rpc,engineRunning,rerun>>
 
 EDeq ==                 \* Dequeue: pop under commandsMutex
   /\ epc = "deq"
-  /\ done' = [done EXCEPT ![eq] = Append(@, Head(cmds[eq]))]
-  /\ cmds' = [cmds EXCEPT ![eq] = Tail(@)]
+  /\ LET a == qorder[eq] IN
+     /\ done' = [done EXCEPT ![a] = Append(@, Head(cmds[a]))]
+     /\ cmds' = [cmds EXCEPT ![a] = Tail(@)]
   /\ epc' = "deqNotify"
-  /\ UNCHANGED <<issued,apc,round,left,sub,token,rpc,engineRunning,rerun,eq,eprog,pauseLock,tickScheduled>>
+  /\ UNCHANGED <<issued,apc,round,left,sub,token,rpc,engineRunning,rerun,eq,eprog,pauseLock,tickScheduled,qorder>>
 
 EDeqNotify ==           \* NotifyAllSubscribers after Dequeue; then next queue or end of tick
   /\ epc = "deqNotify"
-  /\ LET r == NotifyEffect(eq, apc, token) IN apc' = r[1] /\ token' = r[2]
-  /\ IF eq < NA
-     THEN /\ eq' = eq + 1 /\ eprog' = TRUE /\ epc' = "scan" /\ UNCHANGED <<pauseLock, tickScheduled>>
-     ELSE TickEnd(TRUE)
+  /\ LET r == NotifyEffect(qorder[eq], apc, token) IN
+     /\ token' = r[2]
+     /\ IF eq < Len(qorder)
+        THEN /\ apc' = r[1] /\ eq' = eq + 1 /\ eprog' = TRUE /\ epc' = "scan"
+             /\ UNCHANGED <<pauseLock, tickScheduled, qorder>>
+        ELSE TickEndCore(TRUE) /\ ReleaseCreators(r[1])
   /\ UNCHANGED <<cmds,issued,done,round,left,sub,rpc,engineRunning,rerun>>
 
 EClear ==               \* Run() returned: clear the flag and end, or run again if a signal came meanwhile
@@ -198,9 +232,9 @@ EClear ==               \* Run() returned: clear the flag and end, or run again 
   /\ IF ExitMode = "recheck" /\ rerun
      THEN /\ rerun' = FALSE /\ epc' = "loop" /\ UNCHANGED engineRunning
      ELSE /\ engineRunning' = FALSE /\ epc' = "none" /\ rerun' = rerun
-  /\ UNCHANGED <<cmds,issued,done,apc,round,left,sub,token,rpc,eq,eprog,pauseLock,tickScheduled>>
+  /\ UNCHANGED <<cmds,issued,done,apc,round,left,sub,token,rpc,eq,eprog,pauseLock,tickScheduled,qorder>>
 
-AppNext(a) == AppEnq(a) \/ AppEnqNotify(a) \/ AppSubscribe(a) \/ AppSignal(a) \/ AppCheck(a) \/ AppWait(a) \/ AppUnsub(a)
+AppNext(a) == AppCreate(a) \/ AppEnq(a) \/ AppEnqNotify(a) \/ AppSubscribe(a) \/ AppSignal(a) \/ AppCheck(a) \/ AppWait(a) \/ AppUnsub(a)
 RANext == RASelect \/ RAPause \/ RATickLater \/ RAContinue \/ RAFlag
 ENext == EAcquire \/ ELoop \/ ELockPause \/ EScan \/ EDeq \/ EDeqNotify \/ EClear
 Next == (\E a \in Apps : AppNext(a)) \/ RANext \/ ENext
@@ -215,7 +249,7 @@ IsPrefix(s, t) == Len(s) <= Len(t) /\ \A i \in 1..Len(s) : s[i] = t[i]
 FIFO == \A a \in Apps : IsPrefix(done[a], issued[a])
 FIFOStep == [][\A a \in Apps : IsPrefix(done[a], done'[a])]_vars
 \* DrainCommandQueue returns only when every earlier command of the queue has completed
-DrainSound == \A a \in Apps : (apc[a] = "returned" \/ (apc[a] = "enq" /\ left[a] = PerRound)) => done[a] = issued[a]
+DrainSound == \A a \in Apps : (apc[a] \in {"returned", "create", "creating"} \/ (apc[a] = "enq" /\ left[a] = PerRound)) => done[a] = issued[a]
 \* no structural deadlock: some thread can move unless every application thread has finished
 NoHang == (ENABLED Next) \/ AllReturned
 \* one pauseLock holder, engine only touches queues while holding it
